@@ -163,6 +163,8 @@ pub struct Connection {
     key_phase: bool,
     /// How many packets are in the current key phase. Used only for `Data` space.
     key_phase_size: u64,
+    /// First packet number that can have been sent in the current key phase, once keys were updated
+    key_phase_start: Option<u64>,
     /// Transport parameters set by the peer
     peer_params: TransportParameters,
     /// Source ConnectionId of the first packet received from the peer
@@ -303,6 +305,7 @@ impl Connection {
             // response. Inspired by quic-go's similar behavior of performing the first key update
             // at the 100th short-header packet.
             key_phase_size: rng.random_range(10..1000),
+            key_phase_start: None,
             peer_params: TransportParameters::default(),
             orig_rem_cid: rem_cid,
             initial_dst_cid: init_cid,
@@ -1314,6 +1317,15 @@ impl Connection {
             // are illegal.
             debug!("ignoring redundant forced key update");
             return;
+        }
+        if let Some(start) = self.key_phase_start {
+            // A subsequent key update must not be initiated until a packet protected with the
+            // current keys was acknowledged, whoever initiated the previous update
+            let acked = self.spaces[SpaceId::Data].largest_acked_packet;
+            if acked.is_none_or(|pn| pn < start) {
+                debug!("ignoring forced key update before the current key phase is acknowledged");
+                return;
+            }
         }
         self.update_keys(None, false);
     }
@@ -3679,6 +3691,7 @@ impl Connection {
             mem::replace(self.next_crypto.as_mut().unwrap(), new),
         );
         self.spaces[SpaceId::Data].sent_with_keys = 0;
+        self.key_phase_start = Some(self.spaces[SpaceId::Data].next_packet_number);
         self.prev_crypto = Some(PrevCrypto {
             crypto: old,
             end_packet,
